@@ -1,8 +1,132 @@
 //! Extra implementation-side modes for property C01 (the shared `parse` mode lives in parse.rs).
+//!
+//! `(errctx (cmd ...) (argv x.. x..))`: the `parse` mode's result, and for an error additionally
+//! ` ;; msg=<none|raw|formatted> ctx=<Kind:shape,...> rich=<0|1>`:
+//!   msg   whether the error carries a message and of which form (`Message::Raw` / `Message::Formatted`); the field is
+//!         private, so it is read off the derived `Debug` of `ErrorInner` (field `message:` at nesting depth 1, outside
+//!         string literals),
+//!   ctx   `Error::context()`: the context kinds in insertion order, each with the variant of its `ContextValue`,
+//!   rich  0 when the rendered text is the generic `ErrorKind::as_str()` line (`write_dynamic_context` returned false),
+//!         1 otherwise.
+//! `Error::render()` runs under the harness' `catch_unwind` (a panic prints `PANIC ...`).
+use crate::modes::parse::{build_cmd, show_result, EnvGuard};
 use crate::sexp::Sx;
+use clap::error::{ContextKind, ContextValue};
+use std::ffi::OsString;
+use std::os::unix::ffi::OsStringExt;
+use std::panic::{catch_unwind, AssertUnwindSafe};
+
+fn os(x: &Sx) -> OsString {
+    OsString::from_vec(x.bytes())
+}
+
+fn ckind_name(k: ContextKind) -> &'static str {
+    match k {
+        ContextKind::InvalidSubcommand => "InvalidSubcommand",
+        ContextKind::InvalidArg => "InvalidArg",
+        ContextKind::PriorArg => "PriorArg",
+        ContextKind::ValidSubcommand => "ValidSubcommand",
+        ContextKind::ValidValue => "ValidValue",
+        ContextKind::InvalidValue => "InvalidValue",
+        ContextKind::ActualNumValues => "ActualNumValues",
+        ContextKind::ExpectedNumValues => "ExpectedNumValues",
+        ContextKind::MinValues => "MinValues",
+        ContextKind::SuggestedCommand => "SuggestedCommand",
+        ContextKind::SuggestedSubcommand => "SuggestedSubcommand",
+        ContextKind::SuggestedArg => "SuggestedArg",
+        ContextKind::SuggestedValue => "SuggestedValue",
+        ContextKind::TrailingArg => "TrailingArg",
+        ContextKind::Suggested => "Suggested",
+        ContextKind::Usage => "Usage",
+        ContextKind::Custom => "Custom",
+        _ => "Other",
+    }
+}
+
+fn shape(v: &ContextValue) -> &'static str {
+    match v {
+        ContextValue::None => "none",
+        ContextValue::Bool(_) => "bool",
+        ContextValue::String(_) => "string",
+        ContextValue::Strings(_) => "strings",
+        ContextValue::StyledStr(_) => "styled",
+        ContextValue::StyledStrs(_) => "styleds",
+        ContextValue::Number(_) => "number",
+        _ => "other",
+    }
+}
+
+/// the variant of the private `message` field, from `{:?}` of the error (= derived Debug of ErrorInner)
+fn message_form(e: &clap::Error) -> &'static str {
+    let dbg = format!("{e:?}");
+    let b = dbg.as_bytes();
+    let (mut depth, mut in_str, mut i) = (0i32, false, 0usize);
+    while i < b.len() {
+        let c = b[i];
+        if in_str {
+            if c == b'\\' {
+                i += 1;
+            } else if c == b'"' {
+                in_str = false;
+            }
+        } else if c == b'"' {
+            in_str = true;
+        } else if c == b'{' || c == b'[' || c == b'(' {
+            depth += 1;
+        } else if c == b'}' || c == b']' || c == b')' {
+            depth -= 1;
+        } else if depth == 1 && dbg[i..].starts_with("message: ") {
+            let rest = &dbg[i + 9..];
+            return if rest.starts_with("None") {
+                "none"
+            } else if rest.starts_with("Some(Raw(") {
+                "raw"
+            } else if rest.starts_with("Some(Formatted(") {
+                "formatted"
+            } else {
+                "unreadable"
+            };
+        }
+        i += 1;
+    }
+    "unreadable"
+}
+
+fn errctx(a: &[Sx]) -> String {
+    if a.len() != 2 {
+        return "badcase".into();
+    }
+    let mut env = EnvGuard(vec![]);
+    let cmd = match catch_unwind(AssertUnwindSafe(|| {
+        let c = build_cmd(a[0].args(), &mut env);
+        let mut probe = c.clone();
+        probe.build();
+        c
+    })) {
+        Ok(c) => c,
+        Err(_) => return "INVALID".into(),
+    };
+    let argv: Vec<OsString> = a[1].args().iter().map(os).collect();
+    let r = cmd.try_get_matches_from(argv);
+    let extra = match &r {
+        Ok(_) => String::new(),
+        Err(e) => {
+            let ctx: Vec<String> = e.context().map(|(k, v)| format!("{}:{}", ckind_name(k), shape(v))).collect();
+            let rendered = e.render().to_string();
+            let generic = match e.kind().as_str() {
+                Some(s) => rendered.starts_with(&format!("error: {s}\n")),
+                None => true,
+            };
+            format!(" ;; msg={} ctx={} rich={}", message_form(e), ctx.join(","), if generic { 0 } else { 1 })
+        }
+    };
+    format!("{}{}", show_result(r), extra)
+}
 
 /// Returns `Some(result)` when `head` is a mode of this file.
 pub fn dispatch(head: &str, args: &[Sx]) -> Option<String> {
-    let _ = (head, args);
-    None
+    match head {
+        "errctx" => Some(errctx(args)),
+        _ => None,
+    }
 }
